@@ -421,17 +421,55 @@ def check_popen_live(ctx):
     recs = json.loads(p.stdout.strip().splitlines()[-1])
     if sum(1 for r in recs if r.get("skipped")) > len(recs) // 2:
         raise core.Machinery("Popen driver: most children never settled")
-    for r in recs:
-        if r.get("skipped"):
+    recs = [r for r in recs if not r.get("skipped")]
+
+    def enc(v):          # statuses as PopenLife.tla writes them
+        if v is None:
+            return 9998
+        if isinstance(v, int):
+            return v if v >= 0 else 1000 - v
+        return 9001      # an exception: no model answer equals it
+    # (1) the model: the claim holds with the write-back of 7.0.0 and fails without it
+    d = tlc.scratch()
+    cfg = os.path.join(d, "m.cfg")
+    for wb, expect in ((True, None), (False, "C15_Attribute")):
+        tlc.write_cfg(cfg, {"Status": {1015, 0, 7}, "WriteBack": wb}, spec="Spec",
+                      invariants=["C15_TrueStatus", "C15_Attribute"])
+        r = tlc.run("PopenLife", cfg, workers=2, timeout=300)
+        ctx.tlc("popen-model" + ("" if wb else "-without-write-back"), r)
+        if wb and r.violated:
+            ctx.disagree("model:popen:" + str(r.violated), "TLC: %s violated by PopenLife.tla" % r.violated, {"trace": r.trace[-3:]})
+        if not wb and not r.violated:
+            raise core.Machinery("PopenLife.tla no longer needs the write-back: the model has lost its point")
+    # (2) recorded answers of real children against the model
+    tf = os.path.join(d, "traces.ndjson")
+    with open(tf, "w") as f:
+        for r in recs:
+            f.write(json.dumps({"want": enc(r["want"]), "obs": [[o[0], enc(o[1])] for o in r["obs"]]}) + "\n")
+    tlc.write_cfg(cfg, {"Status": {1015, 0, 7}, "WriteBack": True}, init="TInit", next_="TNext", invariants=["Agrees"])
+    r = tlc.run("PopenLifeTrace", cfg, workers=1, env={"TRACE_FILE": tf}, timeout=600)
+    ctx.tlc("popen-trace-validation", r)
+    shutil.rmtree(d, ignore_errors=True)
+    nev = sum(len(x["obs"]) for x in recs)
+    if r.distinct < nev:
+        raise core.Machinery("Popen trace validation consumed %d of %d recorded answers" % (r.distinct, nev))
+    seen = set()
+    for tag, body in r.printed:
+        if tag != "REJECTED":
             continue
-        ctx.case(("popen", r["ending"], r["seq"]))
-        wrong = [o for o in r["obs"] if o[1] != r["want"]]
-        if wrong:
-            ctx.disagree("popen:%s:%s" % (r["ending"], wrong[0][0]),
-                         "psutil.Popen of a child that %s: the calls %s answered %r; every one of them must be %r"
-                         % ({"term": "was terminated by SIGTERM", "exit7": "exited with code 7", "exit0": "exited with code 0"}[r["ending"]],
-                            r["seq"], r["obs"], r["want"]), {"popen": r})
-    ctx.cov.setdefault("replay", {})["popen-live"] = {"sequences": len(recs)}
+        tid, l, model = tlc.parse_value("<<" + body + ">>")
+        if tid in seen:
+            continue
+        seen.add(tid)
+        x = recs[tid - 1]
+        ctx.disagree("popen:%s:%s" % (x["ending"], x["obs"][l - 1][0]),
+                     "psutil.Popen of a child that %s: the calls %s answered %r; the specification's answer to call %d is %r "
+                     "(every answer must be the child's status)"
+                     % ({"term": "was terminated by SIGTERM", "exit7": "exited with code 7", "exit0": "exited with code 0"}[x["ending"]],
+                        x["seq"], x["obs"], l, x["want"]), {"popen": x})
+    for x in recs:
+        ctx.case(("popen", x["ending"], x["seq"]))
+    ctx.cov.setdefault("replay", {})["popen-live"] = {"sequences": len(recs), "answers": nev, "rejected": len(seen)}
     ctx.cov["traces_validated_against_impl"] += len(recs)
 
 
